@@ -3,6 +3,14 @@
 // kb_* : BOUNDED stand-ins for contracts that unit `layout` assumes (bound stated per harness)
 use super::*;
 
+/// test-only window onto the queued samples (used by the API-level harnesses; never compiled into the library)
+pub(crate) fn peek_video<W: std::io::Write>(w: &Mp4Writer<W>, i: usize) -> Option<(u64, u64, bool, usize)> {
+    w.video_samples.get(i).map(|s| (s.pts, s.dts, s.is_keyframe, s.data.len()))
+}
+pub(crate) fn peek_audio<W: std::io::Write>(w: &Mp4Writer<W>, i: usize) -> Option<(u64, u64, usize)> {
+    w.audio_samples.get(i).map(|s| (s.pts, s.dts, s.data.len()))
+}
+
 fn stub_inv(condition: bool, _message: &str, _context: Option<&str>) {
     assert!(condition, "assert_invariant! violated");
 }
